@@ -322,6 +322,7 @@ func (h *hist) disarmFault(msFrom, kmsFrom int) bool {
 	for k := range h.w.KMS.Faults {
 		delete(h.w.KMS.Faults, k)
 	}
+	h.w.KMS.FailEncrypts = 0
 	for k := range h.w.Led.FailAt {
 		delete(h.w.Led.FailAt, k)
 	}
